@@ -657,10 +657,10 @@ Proof.
   - (* escape *) ok_inj He. apply escape_Clean.
   - ok_inj He. reflexivity.
   - (* truncate *)
-    destruct (_ <? _)%Z; ok_inj He; [rewrite safe_ok_vstr; exact Hsv|reflexivity].
+    destruct (Z.of_nat _ <=? _)%Z; ok_inj He; [rewrite safe_ok_vstr; exact Hsv|reflexivity].
   - (* truncatewords *)
     destruct (MAX_TRUNC_WORDS <=? _)%Z; [ok_inj He; rewrite safe_ok_vstr; exact Hsv|].
-    destruct (_ <? _)%Z; ok_inj He; reflexivity.
+    destruct (Z.of_nat _ <=? _)%Z; ok_inj He; reflexivity.
   - (* default *)
     destruct v as [sf s|z|[|]| |l]; cbn [is_empty_val] in He.
     + destruct s; ok_inj He; [exact Hf|exact Hv].
@@ -1248,7 +1248,7 @@ Proof.
                 = untag (snd match e with Some a => arg_str a | None => (false, s_dots) end)).
     { destruct e as [a|]; [cbn [option_map]; rewrite arg_str_untag; reflexivity|reflexivity]. }
     rewrite E, !untag_length.
-    destruct (_ <? _)%Z; [reflexivity|].
+    destruct (Z.of_nat _ <=? _)%Z; [reflexivity|].
     cbn [res_map untag_val]. rewrite py_slice_untag, untag_app. reflexivity.
   - (* truncatewords *)
     assert (E : snd match option_map untag_arg e with Some a => arg_str a | None => (false, s_dots) end
@@ -1261,7 +1261,7 @@ Proof.
       by (intro l; apply (join_with_untag [32])).
     rewrite Hw, !map_length.
     destruct (MAX_TRUNC_WORDS <=? _)%Z; [reflexivity|].
-    destruct (_ <? _)%Z; cbn [res_map untag_val].
+    destruct (Z.of_nat _ <=? _)%Z; cbn [res_map untag_val].
     + rewrite Hj. reflexivity.
     + rewrite firstn_map, Hj, untag_app. reflexivity.
   - (* default *)
